@@ -7,8 +7,8 @@ ROOT = os.path.dirname(os.path.dirname(os.path.abspath(__file__)))
 # id -> (technique, level text, level note, design ref)
 CLAIMED = {
     "C05": (
-        "property-based differential testing: generated formulas x here-and-there interpretations; oracle = independent Kripke evaluator vs classical evaluation of gamma(F) (proptest, shrinking)",
-        "Exploration: on every generated formula (all connectives, three sorts, free variables) and every generated pair H subset-of T the HT truth value computed by the checker's own evaluator equals the classical truth value of gamma(F) in I_(H,T); predicates named p/hp/tp test that copies stay distinct. Sampling cannot prove the law, but gamma is a small structural recursion and each connective pair is hit thousands of times per run.",
+        "property-based differential testing: generated formulas x here-and-there interpretations; oracle = independent Kripke evaluator vs classical evaluation of gamma(F) (proptest, shrinking); plus formula text in conventional notation (checker's own minimal-parentheses printer) vs the tree anthem reads, and `translate --with gamma` on text vs gamma of the tree",
+        "Exploration: on every generated formula (all connectives, three sorts, free variables) and every generated pair H subset-of T the HT truth value computed by the checker's own evaluator equals the classical truth value of gamma(F) in I_(H,T); predicates named p/hp/tp test that copies stay distinct. Sampling cannot prove the law, but gamma is a small structural recursion and each connective pair is hit thousands of times per run. The parser reads conventionally written formula text (arrow chains, and/or chains, prefix operators) as the formula it denotes.",
         "Trusted: the checker's window-relativised evaluator (sound here because gamma touches neither terms nor quantifier domains); proptest generators; finite extents.",
         "4/C05",
     ),
@@ -43,8 +43,8 @@ CLAIMED.update({
         "4/C06",
     ),
     "C07": (
-        "property-based semantic equivalence testing: generated formulas (guarded/unguarded, directed binder/equality shapes, translator outputs) x 3 portfolios x 3 strategies x interpretations; oracle = exact three-valued evaluator over the standard domain before vs after (HT for intuitionistic/ht, classical for classic)",
-        "Exploration: the truth value (HT or classical, as documented per portfolio) before and after simplification is computed exactly over the infinite standard domain through finite candidate sets; only definite verdicts are compared, the inconclusive share is reported. Each rewrite's firing frequency is in the evidence.",
+        "property-based semantic equivalence testing: generated formulas (guarded/unguarded, directed binder/equality shapes, translator outputs) x 3 portfolios x 3 strategies x interpretations; oracle = exact three-valued evaluator over the standard domain before vs after (HT for intuitionistic/ht, classical for classic); plus a differential of the command `anthem simplify` against the in-process application of the same portfolio and strategy",
+        "Exploration: the truth value (HT or classical, as documented per portfolio) before and after simplification is computed exactly over the infinite standard domain through finite candidate sets; only definite verdicts are compared, the inconclusive share is reported. Each rewrite's firing frequency is in the evidence. The command line applies exactly the portfolio and strategy it is asked for (output equals the in-process result).",
         "Trusted: the exact evaluator (candidate-set soundness argued in DESIGN.md 3.2, self-checked in paranoid mode) and finite-extent interpretations.",
         "4/C07",
     ),
@@ -82,7 +82,7 @@ CLAIMED.update({
         "4/C08",
     ),
     "C09": (
-        "property-based testing with a strict independent TFF reader and type checker as oracle over every problem of generated strong/external tasks x flags; known-finding shapes in a separate tolerated campaign; syntax differential of a sample of problems against tptp4X",
+        "property-based testing with a strict independent TFF reader and type checker as oracle over every problem of generated strong/external tasks x flags; known-finding shapes in a separate tolerated campaign; tasks with generated proof outlines (definitions, lemmas, inductive lemmas); syntax differential of a sample of problems against tptp4X",
         "Exploration: each emitted problem must be valid typed TFF: words, unique names, one declaration and type per identifier, declared before use, typed quantifiers, one conjecture. Tricky-but-handled identifier shapes are in the main campaign; the recorded name-mangling defects are confirmed on recorded inputs and tolerated by narrow signature only.",
         "Trusted: the checker's TFF reader/type checker (syntax acceptance cross-checked against tptp4X).",
         "4/C09",
